@@ -77,11 +77,13 @@ class VLoop(asyncio.SelectorEventLoop):
     def time(self):
         return self.vt
 
-    def drain(self, n=4000):
+    drain_cap = 600      # loop iterations one drain may take (a hot loop in the code under test must not hang the check)
+
+    def drain(self, n=None):
         """run the loop until nothing is ready any more (timers do not fire: the clock stands still)"""
         async def z():
             idle = 0
-            for _ in range(n):
+            for _ in range(n or self.drain_cap):
                 await asyncio.sleep(0)
                 idle = idle + 1 if not self._ready else 0
                 if idle >= 2:
@@ -959,6 +961,7 @@ class ServerWorld:
     def __init__(self, blobs, loop=None, adopted=(), track=False, host='127.0.0.1'):
         self.host = host
         self.loop = loop or VLoop()
+        self.loop.drain_cap = 4000       # a 2 MiB loop.sendfile fallback takes ~1000 iterations
         self.own_loop = loop is None
         asyncio.set_event_loop(self.loop)
         self.dir = tempfile.mkdtemp(prefix='c10s')
